@@ -664,6 +664,17 @@ namespace avel {
     }
 
     [[nodiscard]]
+    AVEL_FINL vec8x64f fmod(vec8x64f a, vec8x64f b) {
+        // No vectorized remainder yet: each lane is evaluated with the scalar overload
+        auto x = to_array(a);
+        auto y = to_array(b);
+        for (std::uint32_t i = 0; i < vec8x64f::width; ++i) {
+            x[i] = avel::fmod(x[i], y[i]);
+        }
+        return vec8x64f{x};
+    }
+
+    [[nodiscard]]
     AVEL_FINL vec8x64f fdim(vec8x64f x, vec8x64f y) {
         return blend(x <= y, vec8x64f{0.0}, x - y);
     }
